@@ -43,6 +43,11 @@ def check(ctx, report):
     ldap_schema(ctx, report)
     report.floor('C09.R1', 25, 'layout comparisons')
     report.floor('C09.R2', 100, 'registry members')
+    # an optional part one side keys on a capability flag is keyed on the same flag by the other side (shared with C01.R12)
+    from .c01 import flag_keyed_optionals
+    opp = {c.name for c in ctx.model.all_classes if getattr(getattr(c, 'module', None), 'relpath', '').startswith(
+        ('cryptoparser/tls/mysql.py', 'cryptoparser/tls/rdp.py', 'cryptoparser/tls/openvpn.py', 'cryptoparser/tls/ldap.py', 'cryptoparser/tls/postgresql.py'))}
+    flag_keyed_optionals(ctx, report, RULE='C09.R11', only=opp)
 
 
 def find_objs(v, out):
